@@ -892,6 +892,70 @@ func ipSection(addrs []uint32) {
 	}
 }
 
+// texts that are not canonical dotted quads: what ToBytes makes of them is modelled and proved
+// (IpUtil.toBytes_parts / toBytes_other), so it is compared too
+func genIPText(r *vh.Rng) string {
+	part := func() string {
+		switch r.Intn(12) {
+		case 0:
+			return "+" + strconv.Itoa(r.Intn(300))
+		case 1:
+			return "-" + strconv.Itoa(r.Intn(600))
+		case 2:
+			return "0" + strconv.Itoa(r.Intn(300))
+		case 3:
+			return strconv.Itoa(256 + r.Intn(100000))
+		case 4:
+			return r.PickStr([]string{"", " ", "a", "1a", "0x10", "1_0", "１", "+", "-", "--1", "1 ", " 1", "1e2", "9223372036854775807", "9223372036854775808", "-9223372036854775808", "-9223372036854775809", "18446744073709551616", "000", "00000000000000000000255"})
+		case 5:
+			return strconv.FormatInt(r.I64(), 10)
+		default:
+			return strconv.Itoa(r.Intn(256))
+		}
+	}
+	n := 4
+	if r.Chance(15) {
+		n = r.PickInt([]int{0, 1, 2, 3, 5, 6})
+	}
+	ps := make([]string, n)
+	for i := range ps {
+		ps[i] = part()
+	}
+	sep := "."
+	if r.Chance(3) {
+		sep = r.PickStr([]string{"..", ",", ":", ". "})
+	}
+	return strings.Join(ps, sep)
+}
+
+func ipTextSection(texts []string) {
+	lines := make([]string, len(texts))
+	impls := make([]string, len(texts))
+	for i, t := range texts {
+		lines[i] = "IB " + vh.Hex([]byte(t))
+		var b []byte
+		o := vh.Guard(func() { b = iputil.ToBytes(t) })
+		if !o.OK() {
+			failProp("iputil:panic", "ToBytes panicked on "+strconv.Quote(t), replay{Op: lines[i], Detail: o.Panic})
+			impls[i] = "panic"
+			continue
+		}
+		impls[i] = vh.Hex(b)
+	}
+	outs := runDriver(lines)
+	for i := range lines {
+		regCase(lines[i], true)
+		rep.Count("ip:text-noncanonical")
+		if i%4001 == 1 {
+			rep.Sample(map[string]string{"op": lines[i], "text": texts[i], "impl": impls[i], "model": outs[i]})
+		}
+		if impls[i] != outs[i] && impls[i] != "panic" {
+			failCorr("iputil:ToBytes-text-differs-from-model", fmt.Sprintf("ToBytes(%q): implementation %s, model %s", texts[i], impls[i], outs[i]),
+				replay{Op: lines[i], Impl: impls[i], Model: outs[i]})
+		}
+	}
+}
+
 func ipSpecial() {
 	o := vh.Guard(func() {
 		if s := iputil.ToString(nil); s != "0.0.0.0" {
@@ -1014,6 +1078,7 @@ func runReplay(path string) {
 	var bs []bitIn
 	var ips []uint32
 	var mls []uint64
+	var ipTexts []string
 	for _, c := range rf.Cases {
 		f := strings.Fields(c.Op)
 		if len(f) == 0 {
@@ -1051,6 +1116,7 @@ func runReplay(path string) {
 			if b := iputil.ToBytes(string(vh.UnHex(f[1]))); len(b) == 4 {
 				ips = append(ips, uint32(b[0])<<24|uint32(b[1])<<16|uint32(b[2])<<8|uint32(b[3]))
 			}
+			ipTexts = append(ipTexts, string(vh.UnHex(f[1])))
 		case "II":
 			v, _ := strconv.ParseInt(f[1], 10, 64)
 			ips = append(ips, uint32(int32(v)))
@@ -1062,6 +1128,7 @@ func runReplay(path string) {
 	hexaSection(xs, true)
 	bitSection(bs)
 	ipSection(ips)
+	ipTextSection(ipTexts)
 }
 
 // ---------------------------------------------------------------- main
@@ -1197,6 +1264,17 @@ func main() {
 		addrs = append(addrs, uint32(a))
 	}
 	ipSection(addrs)
+	{
+		nText := 30000
+		if env.Thorough {
+			nText = 1000000
+		}
+		texts := []string{"+1.01.256.-1", "1.2.3", "a.b.c.d", " 1.2.3.4", "1.2.3.4.5", "99999999999999999999.1.1.1", "...", "1..2.3", "1.2.3.4 ", "-0.+0.00.000"}
+		for i := 0; i < nText; i++ {
+			texts = append(texts, genIPText(rng))
+		}
+		ipTextSection(texts)
+	}
 	lap("ipv4-strided")
 	if env.Thorough {
 		ipFull()
